@@ -56,8 +56,12 @@ def uni_chars():
     return sorted(set(out))
 
 
+BOMS = [b"\xef\xbb\xbf", b"\xff\xfe", b"\xfe\xff", b"\xff\xfe\x00\x00", b"\x00\x00\xfe\xff", b"+/v8", b"\xf7\x64\x4c"]
+
+
 def bounds(tier):
     d = I.describe(tier)
+    d["cli_byte_order_marks"] = [b.hex() for b in BOMS]
     d["unicode_sweep"] = {"templates": len(UNI_TEMPLATES), "code_points": len(uni_chars())}
     d["cli_bytes"] = {"alphabet": [hex(b) for b in BYTES], "max_len": 3 if tier == "thorough" else 2}
     return d
@@ -72,6 +76,8 @@ def shards(tier):
         sh.append(("unicode", i, min(len(ucs), i + 100)))
     for b in BYTES:
         sh.append(("cli", b, 3 if tier == "thorough" else 2))
+    for bi in range(len(BOMS)):
+        sh.append(("clibom", bi, 3 if tier == "thorough" else 2))
     n = len(S.corpus_seeds())
     for i in range(0, n, 100):
         sh.append(("clicorpus", i, min(n, i + 100)))
@@ -168,6 +174,12 @@ def run_shard(sh, acc):
         for k in range(0, L):
             for combo in itertools.product(BYTES, repeat=k):
                 _cli_one(bytes((b,) + combo), acc)
+        return
+    if kind == "clibom":
+        _, bi, L = sh
+        for k in range(0, L + 1):
+            for combo in itertools.product(BYTES, repeat=k):
+                _cli_one(BOMS[bi] + bytes(combo), acc)
         return
     if kind == "clicorpus":
         _, lo, hi = sh
